@@ -48,6 +48,11 @@ fn gen_named(r: &mut Rng) -> String {
                 }
             }
         }
+        // now and then an alternative that can never match (the optimizer replaces it by an always-failing node
+        // unless it holds capture groups): the groups of the pattern must all still be reported
+        if r.chance(1, 10) {
+            if r.chance(1, 2) { s.push_str("[]") } else { s = format!("[]{}", s) }
+        }
         alts.push(s);
     }
     alts.join("|")
